@@ -1,6 +1,7 @@
 package xlate
 
 import (
+	"bytes"
 	"context"
 	"fmt"
 	"math/rand"
@@ -54,13 +55,19 @@ func TestACL(t *testing.T) {
 		{"translated-unmapped", true, false, "allowed-remote", "allowed-local-not"},
 		{"bypass-header", true, true, "allowed-local", "forbidden-local"},
 	}
+	var lastDelivered proto.Message // what the local cluster's handler was given by the latest call
 	call := func(v variant, m gen.Method, req proto.Message) (reached bool, err error) {
+		lastDelivered = nil
 		ctx := context.Background()
 		if v.bypass {
 			ctx = metadata.NewIncomingContext(ctx, metadata.Pairs("s2s-request-translation", "false"))
 		}
 		info := &grpc.UnaryServerInfo{FullMethod: m.FullName}
-		final := func(ctx context.Context, req any) (any, error) { reached = true; return gen.New(m.Out), nil }
+		final := func(ctx context.Context, req any) (any, error) {
+			reached = true
+			lastDelivered, _ = req.(proto.Message)
+			return gen.New(m.Out), nil
+		}
 		withACL := func(ctx context.Context, req any) (any, error) { return acl.Intercept(ctx, req, info, final) }
 		if v.translation {
 			_, err = tin.Intercept(ctx, req, info, withACL)
@@ -154,6 +161,37 @@ func TestACL(t *testing.T) {
 						// everything outside the blob names the allowed namespace
 						fillOutsideBlobs(msg, v.allowed)
 						check(v, msg, forb, normPath("."+bp.String()+".<events>."+ep.String()))
+					}
+					if ei%2 == 0 || rec.Thorough() {
+						// the forbidden name in a batch that needs UTF-8 repair before it can be read (invalid bytes in a
+						// failure message of a neighbouring event): the repaired batch must still be checked
+						ev := &historypb.HistoryEvent{EventId: 5}
+						gen.SetString(ev, ep, v.forbidden)
+						ok := &historypb.HistoryEvent{EventId: 4}
+						gen.SetString(ok, evPaths[0], v.allowed)
+						gen.FillNamespaceSites(ok, v.allowed)
+						gen.FillNamespaceSites(ev, v.allowed)
+						gen.SetString(ev, ep, v.forbidden)
+						_, dirty := dirtyTwin([]*historypb.HistoryEvent{ok, ev}, ei%4 == 0)
+						msg := gen.New(r.md)
+						putBlob(msg, bp, dirty)
+						fillOutsideBlobs(msg, v.allowed)
+						counts["repaired_blob_forbidden_cases"]++
+						// Judged on what the local cluster is given: the repair goes through the legacy (1.22) schema, which drops
+						// event attributes it does not know (e.g. Nexus events) - a name that no longer exists in the delivered
+						// request did not reach the local cluster (that loss is not C16's business and is counted, not reported)
+						reached, _ := call(v, m, proto.Clone(msg))
+						stillThere := false
+						if reached && lastDelivered != nil {
+							if b, e := (proto.MarshalOptions{AllowPartial: true}).Marshal(lastDelivered); e == nil {
+								stillThere = bytes.Contains(b, []byte(v.forbidden)) || (nsReq[v.forbidden] != "" && bytes.Contains(b, []byte(nsReq[v.forbidden])))
+							}
+						}
+						if reached && !stillThere {
+							counts["repaired_blob_name_dropped_by_legacy_repair_not_judged"]++
+						} else {
+							check(v, msg, true, normPath("."+bp.String()+".<events needing utf-8 repair>."+ep.String()))
+						}
 					}
 					classes = append(classes, m.Name+":"+v.name+":"+bp.String()+"<"+ep.String()+">")
 				}
